@@ -1,6 +1,7 @@
 package vc
 
 import (
+	"go/token"
 	"fmt"
 	"go/types"
 	"sort"
@@ -220,6 +221,7 @@ func (fr *frame) callByContract(x *ssa.Call, fn *ssa.Function, con *Contract, cl
 			}
 		}
 	}
+	fr.callSiteObligationsFor(key, x, nil, args, st)
 	pre := st.clone()
 	short := key
 	anchor := fr.srcAnchor(x.Pos(), isCall, key)
@@ -267,6 +269,7 @@ func (fr *frame) dynamicCall(x *ssa.Call, v *Term, args []*Term, st *state) {
 	g := fr.g
 	g.usedAssumptions["dynamic calls (function values not statically known) return arbitrary well-typed results and do not modify modelled memory"] = true
 	g.safety(fr, st, "nil-func-call", fr.srcAnchor(x.Pos(), isCall, "call"), x.Pos(), "(not (= "+v.S+" 0))")
+	fr.callSiteObligations(x, v, args, st)
 	if !fr.isOperatorSig(x.Common().Signature()) {
 		// not an operator: a function value of the package's own plumbing (leaf parsers, options, optimisers):
 		// it may do anything to the heap -> havoc every heap component known to this run
@@ -549,4 +552,50 @@ func (fr *frame) isOperatorSig(sig *types.Signature) bool {
 		return types.Identical(sig, opT.Type().Underlying())
 	}
 	return false
+}
+
+// callSiteObligations emits the `callsite` clauses of the function under verification at a call through a
+// function value: $callee is the function value, $arg<i> the actual arguments and $fnbase the struct the
+// function value was loaded from (curt for curt.operator).  Only calls in the function's own body count
+// (not in inlined callees, whose own contracts would carry such clauses).
+func (fr *frame) callSiteObligations(x *ssa.Call, v *Term, args []*Term, st *state) {
+	fr.callSiteObligationsFor("", x, v, args, st)
+}
+
+// callSiteObligationsFor: target "" = calls through function values (label without ':'); otherwise the clauses
+// labelled [<target>:<label>] at static calls of the function <target>.
+func (fr *frame) callSiteObligationsFor(target string, x *ssa.Call, v *Term, args []*Term, st *state) {
+	g := fr.g
+	if g.con == nil || len(g.con.CallSites) == 0 || fr.inline != "" || g.dry {
+		return
+	}
+	names := map[string]*Term{}
+	if v != nil {
+		names["callee"] = v
+	}
+	for i, a := range args {
+		names[fmt.Sprintf("arg%d", i)] = a
+	}
+	if ld, ok := x.Common().Value.(*ssa.UnOp); ok && ld.Op == token.MUL {
+		if fa, ok := ld.X.(*ssa.FieldAddr); ok {
+			names["fnbase"] = fr.val(fa.X)
+		}
+	}
+	anchor := fr.srcAnchor(x.Pos(), isCall, "call")
+	for _, c := range g.con.CallSites {
+		ct := ""
+		if i := strings.Index(c.Label, ":"); i >= 0 {
+			ct = c.Label[:i]
+		}
+		if ct != target {
+			continue
+		}
+		sc := &specCtx{fr: fr, st: st, old: fr.entryState(), names: names, block: x.Block(), phiPred: -1}
+		cond := sc.tr(c.Expr)
+		if sc.err != "" {
+			g.rejectf("callsite [%s]: %s", c.Label, sc.err)
+			continue
+		}
+		g.addObl(fr, st, "callsite", c.Label+":"+anchor, "callsite", x.Pos(), cond)
+	}
 }
